@@ -24,16 +24,7 @@ ARITH = ("Add", "Sub", "Mul", "Quo")
 JUDGE_STATS = {}
 
 
-def coq_op(o):
-    t = o.split()
-    name = t[0]
-    if name == "SetPrec":
-        return "(OSetPrec %s %s)" % (t[1], t[2])
-    if name == "SetMode":
-        return "(OSetMode %s %s)" % (t[1], ["ToNearestEven", "ToNearestAway", "ToZero", "AwayFromZero", "ToNegativeInf", "ToPositiveInf"][int(t[2])])
-    if name == "SetInf":
-        return "(OSetInf %s %s)" % (t[1], "true" if t[2] == "1" else "false")
-    return "(O%s %s)" % (name, " ".join(t[1:]))
+coq_op = common.coq_op
 
 
 def nontrivial(c):
